@@ -48,6 +48,10 @@ pub fn pool() -> Vec<RVal> {
         arr(vec![RVal::Int(1)]),
         arr(vec![RVal::Int(1), s("a")]),
         arr(vec![s("a")]),
+        // arrays holding elements that non-scalar needles can equal (contains nil / empty / blank / an array)
+        arr(vec![RVal::Int(1), RVal::Nil]),
+        arr(vec![s("a"), s("")]),
+        arr(vec![arr(vec![RVal::Int(1)]), RVal::Int(2)]),
         obj(vec![]),
         obj(vec![("a", RVal::Int(1))]),
         RVal::Empty,
@@ -264,6 +268,17 @@ fn chains(ctx: &mut Ctx) {
                     test(kw_unless),
                 ];
                 run_case(ctx, &Case { main: &main, partials: &[], data: &data, family: "shadowed-member-test", strip_newlines: false, style_seed: 3 }, true);
+                // the same test after an assign (and after a capture) re-bound x over the caller's x
+                for k in 0..6usize {
+                    let main = vec![
+                        test(kw_unless),
+                        Node::Assign("x".into(), Expr::Var(Path { root: "xs".into(), segs: vec![crate::gen::ast::Seg::Lit(RVal::Int(k as i64))] }), vec![]),
+                        test(kw_unless),
+                        Node::Capture("x".into(), vec![Node::Text("captured".into())]),
+                        test(kw_unless),
+                    ];
+                    run_case(ctx, &Case { main: &main, partials: &[], data: &data, family: "shadowed-member-test", strip_newlines: false, style_seed: 5 + k as u64 }, true);
+                }
             }
         }
         for name in ["size", "first", "last", "forloop", "tablerow", "nope"] {
@@ -295,6 +310,24 @@ fn chains(ctx: &mut Ctx) {
             Node::Text("]".into()),
         ];
         run_case(ctx, &Case { main: &main, partials: &[], data: &data, family: "case-when", strip_newlines: false, style_seed: r.next() }, arms >= 2);
+        if i % 3 == 0 {
+            // the same case node evaluated for several targets in a row (inside a loop): each pass
+            // takes the first arm that matches *that* target
+            if let Node::Case { arms: arm_nodes, else_, .. } = &main[1] {
+                let xs: Vec<RVal> = (0..3 + r.below(3)).map(|_| r.pick(&targets).clone()).collect();
+                let data = RVal::Object(vec![("xs".into(), RVal::Array(xs))]);
+                let looped = vec![Node::For {
+                    var: "x".into(),
+                    coll: Coll::Expr(Expr::var("xs")),
+                    limit: None,
+                    offset: None,
+                    reversed: false,
+                    body: vec![Node::Text("[".into()), Node::Case { target: Expr::var("x"), arms: arm_nodes.clone(), else_: else_.clone() }, Node::Text("]".into())],
+                    else_: None,
+                }];
+                run_case(ctx, &Case { main: &looped, partials: &[], data: &data, family: "case-when-in-loop", strip_newlines: false, style_seed: r.next() }, true);
+            }
+        }
     }
 }
 
